@@ -187,6 +187,20 @@ func (fr *Frame) nativeCall(b *ssa.BasicBlock, st *State, name string, callee *s
 		errv := fr.havocVal(resT.(*types.Tuple).At(1).Type(), "b64err")
 		fc.addFact("true", fr.typeFacts(errv, st))
 		return Val{Typ: resT, IsAg: true, Agg: []Val{{S: n, Typ: types.Typ[types.Int]}, errv}}, true
+	case "crypto/rand.Int":
+		fr.trust("crypto/rand.Int(r, max): panics for max <= 0; returns a fresh value in [0, max) or (nil, err)")
+		mx := fr.scalar(args[1])
+		fr.nilOb(b, src+":max", mx, pos)
+		fr.ob("panic", src+":max<=0", b, sApp(">", fr.bv(st, mx), "0"), pos)
+		errv := fr.havocVal(resT.(*types.Tuple).At(1).Type(), "randerr")
+		fc.addFact("true", fr.typeFacts(errv, st))
+		r := fr.alloc(st, "big")
+		rv := fc.freshConst("randint", "Int")
+		fr.setBV(st, r, rv)
+		fc.addFact("true", sAnd(sApp("<=", "0", rv), sApp("<", rv, fr.bv(st, mx))))
+		res := fc.freshConst("randres", "Int")
+		fc.addFact("true", sEq(res, sIte(sEq(fr.scalar(errv), "0"), r, "0")))
+		return Val{Typ: resT, IsAg: true, Agg: []Val{{S: res, Typ: resT.(*types.Tuple).At(0).Type()}, errv}}, true
 	case "crypto/subtle.ConstantTimeCompare":
 		fr.trust("crypto/subtle.ConstantTimeCompare: 1 iff same length and same bytes, else 0")
 		x, y := args[0], args[1]
@@ -581,6 +595,7 @@ func (fr *Frame) bigMethod(b *ssa.BasicBlock, st *State, m string, args []Val, r
 		fr.setBV(st, z, sIte(noinv, sIte(sEq(am, "1"), "0", cur), val))
 		// Go: for |m| == 1 the result is 0 before the inverse is attempted
 		res := fc.freshConst("expres", "Int")
+		fc.aliasRef(res, z)
 		fc.addFact("true", sEq(res, sIte(sAnd(noinv, sNot(sEq(am, "1"))), "0", z)))
 		return Val{S: res, Typ: resT}, true
 	case "ModInverse":
@@ -594,6 +609,7 @@ func (fr *Frame) bigMethod(b *ssa.BasicBlock, st *State, m string, args []Val, r
 		fr.ob("div", src+":zero", b, sNot(sEq(n, "0")), pos)
 		fr.setBV(st, z, sIte(has, inv, cur))
 		res := fc.freshConst("invres", "Int")
+		fc.aliasRef(res, z)
 		fc.addFact("true", sEq(res, sIte(has, z, "0")))
 		return Val{S: res, Typ: resT}, true
 	case "GCD":
@@ -653,6 +669,7 @@ func (fr *Frame) bigMethod(b *ssa.BasicBlock, st *State, m string, args []Val, r
 		cur := fr.bv(st, z)
 		fr.setBV(st, z, sIte(ok, r, cur))
 		res := fc.freshConst("modsqrtres", "Int")
+		fc.aliasRef(res, z)
 		fc.addFact("true", sEq(res, sIte(ok, z, "0")))
 		return Val{S: res, Typ: resT}, true
 	case "Bit":
